@@ -50,15 +50,8 @@ def goodLabel : Label → Bool
   | .p a b => !(a == 0 && b == 0)
   | .nil => false
 
-/-- reactant-side labels of a bond with label `l` -/
-def splitG : Label → List Label
-  | .p a _ => if a = 0 then [] else [.s a]
-  | l => [l]
-
-/-- product-side labels of a bond with label `l` -/
-def splitH : Label → List Label
-  | .p _ b => if b = 0 then [] else [.s b]
-  | l => [l]
+/- `splitG` / `splitH` (reactant-side / product-side labels of a bond with label `l`) are defined in
+   `Model/C15.lean` (the driver's direct check `halvesB` uses them). -/
 
 /-- `get_its` on the label level: `(e_G, e_H or 0)`, or `(0, e_H)` when the reactant has no bond -/
 def superLabels (lg lh : List Label) : List Label :=
